@@ -346,11 +346,14 @@ func inF26(c *EWCase) bool {
 }
 
 func TestC11(t *testing.T) {
-	cmpDTs := append(append([]DT{}, ordNumDTs...), dtStr, dtC64, dtC128, dtBool)
+	cmpDTs := append(append([]DT{}, ordNumDTs...), dtStr, dtC64, dtC128, dtBool, dtUintptr)
 	for _, op := range cmpOps {
 		for _, d := range cmpDTs {
 			if !opSupports("cmp", op, d) {
 				continue
+			}
+			if d.Name == "uintptr" && op != "ElEq" && op != "ElNe" {
+				continue // comparable, not a member of the library's Ord class
 			}
 			for _, form := range []string{"TT", "TS", "ST"} {
 				for _, mode := range []string{"safe", "safe-same", "unsafe", "reuse", "reuse-same", "reuse-alias"} {
